@@ -464,6 +464,13 @@ func (s *Server) processPollingSubscription(c *streamClient) {
 			c.errC <- err
 			return
 		}
+		if c.target != "*" && !s.c.HasTarget(c.target) {
+			// The only target being polled was deleted: end the stream like a
+			// streaming subscription to it ends.
+			log.Infof("Target %q was deleted. Closing stream.", c.target)
+			c.queue.Close()
+			return
+		}
 		log.Infof("polling subscription: repoll: %q", c.sr)
 		s.processSubscription(c)
 		log.Infof("polling subscription: repoll complete: %q", c.sr)
